@@ -23,6 +23,14 @@ rev 733a97d F7 C05
 rev 9ede639 F10 C15
 rev 9293df1 F11 C15
 rev a808ea3 F12 C15
+rev 9bb6695 F13 C06 C08
+rev 6d63d7d F14 C15
+rev 340452d F15 C04 C14
+rev a2ac154 F16 C11
+rev 09d730b F17 C02 C05
+rev 84b7197 F18 C15 C14
+rev 53e5464 F19 C15 C02
+rev 6245a1e F20 C15
 for d in /verif/seeded/*/; do
   id=$(basename $d)
   props=$(python3 -c "import json;print(' '.join(json.load(open('$d/meta.json')).get('caught_by') or []))")
